@@ -499,6 +499,62 @@ func c03Coercion(p *Prog) *RuleResult {
 			return "", true
 		})
 	}
+	// --- ToStringWithoutSideEffects -----------------------------------------------------------
+	// String(x) / `${x}` / "" + x folding. Reference (ECMA-262 ToString, RegExp.prototype.toString):
+	// null, undefined and booleans have fixed strings; numbers and bigints are computed from the
+	// value; a regular expression stringifies to its source text only if its flags are written in
+	// the canonical order "dgimsuvy" (`/a/ig` is "/a/gi"), so its row must sit behind a test of the
+	// literal; every other kind has no compile-time string.
+	if rows, ok := table("js_ast.ToStringWithoutSideEffects"); ok {
+		fixed := map[string][]string{"ENull": {"str:null"}, "EUndefined": {"str:undefined"}, "EBoolean": {"str:true", "str:false"}}
+		finishRows("ToString", rows, func(row c03Row) (string, bool) {
+			o := row.o
+			if len(o.results) != 2 {
+				return "unexpected result arity", true
+			}
+			okR := o.results[1]
+			if okR.known && okR.val == 0 {
+				return "", false
+			}
+			desc := o.descs[0]
+			if want, has := fixed[row.kind]; has {
+				if row.kind == "EBoolean" {
+					// the string follows the literal's value
+					if row.has("field:Value=T") {
+						want = []string{"str:true"}
+					} else if row.has("field:Value=F") {
+						want = []string{"str:false"}
+					} else {
+						want = nil
+					}
+				}
+				for _, w := range want {
+					if desc == w {
+						return "", true
+					}
+				}
+				return fmt.Sprintf("answers %s; ToString of every such expression is %s", strings.TrimPrefix(desc, "str:"), strings.Join(want, " or ")), true
+			}
+			switch row.kind {
+			case "ENumber", "EBigInt":
+				if strings.HasPrefix(desc, "str:") {
+					return "answers the constant " + desc + " for a numeric literal", true
+				}
+				return "", true
+			case "ERegExp":
+				if len(row.labels) == 0 {
+					return "answers the regular expression's source text unconditionally; RegExp.prototype.toString prints the flags in canonical order, so `\"x\" + /a/ig` is \"x/a/gi\", not \"x/a/ig\": the row needs a test of the literal's flags", true
+				}
+				return "", true
+			case "EDot":
+				// `"".constructor` / `/x/.constructor` tricks of obfuscators: fixed native-function strings behind tests of the name and target
+				if len(row.labels) > 0 {
+					return "", true
+				}
+			}
+			return "claims a compile-time string for this kind of expression", true
+		})
+	}
 	r.Floor(40)
 	return r
 }
